@@ -137,15 +137,22 @@ def scenarios(draw):
         filler["children"].append(["text", [["lit", " after "]]])
         extend = {"name": "x0", "base": 0, "slot": s, "filler": filler}
     uses = []
+    pending = None      # slot name offered in vain to the previous macro
     for u in range(draw(st.integers(1, 3))):
         target = draw(st.integers(0, len(macros) - 1))
         if extend is not None and draw(st.booleans()):
             target = 0
+        if pending is not None and draw(st.integers(0, 3)) != 0:
+            # now use the macro that does define that slot
+            target = [k for k, m_ in enumerate(macros)
+                      if pending in m_["slots"]][0]
         via_ext = extend is not None and target == 0 and \
             draw(st.integers(0, 3)) != 0
         slots = macros[target]["slots"]
         fills = {}
         for s in slots:
+            if s == pending:
+                continue
             if draw(st.booleans()) or (via_ext and s == extend["slot"] and
                                        draw(st.booleans())):
                 ctx.n_elems = 0
@@ -153,11 +160,21 @@ def scenarios(draw):
                 strip_root(f)
                 fills[s] = f
         unknown = []
+        pending = None
         for _ in range(draw(st.integers(0, 1))):
             ctx.n_elems = 0
             f = tstrat.element(ctx, 0)
             strip_root(f)
-            unknown.append(["zz%d" % u, f])
+            # a name that no macro defines, or the slot name of ANOTHER
+            # macro (which a later use must not see filled)
+            foreign = sorted(set(x for k, m_ in enumerate(macros)
+                                 if k != target for x in m_["slots"]) -
+                             set(slots))
+            if foreign and draw(st.booleans()):
+                unknown.append([draw(st.sampled_from(foreign)), f])
+                pending = unknown[-1][0]
+            else:
+                unknown.append(["zz%d" % u, f])
         wrap = {}
         w = draw(st.integers(0, 5))
         if w == 0:
@@ -342,7 +359,8 @@ def render(src, lib_src, bindings):
 class Inline(Part):
     name = "inline"
     examples = {"quick": 900, "thorough": 30000}
-    floors = {"filled_and_default": 0.1}
+    floors = {"filled_and_default": 0.1,
+              "unused_filler_then_macro_with_that_slot": 0.03}
 
     def strategy(self, tier):
         return scenarios()
@@ -357,7 +375,15 @@ class Inline(Part):
             m["root"])] if s)) < len([d for d in descendants(m["root"])
                                       if d.get("slot")])
             for m in case["macros"])
+        stale = False
+        for i, use in enumerate(case["uses"]):
+            for name, _f in use["unknown"]:
+                for later in case["uses"][i + 1:]:
+                    if name in case["macros"][later["macro"]]["slots"] and \
+                            name not in later["fills"]:
+                        stale = True
         return {"filled_and_default": fd, "repeated_slot": rep,
+                "unused_filler_then_macro_with_that_slot": stale,
                 "extend": any(u["ext"] for u in case["uses"]),
                 "kind_" + case["kind"]: True,
                 "unknown_fill": any(u["unknown"] for u in case["uses"])}
